@@ -110,3 +110,24 @@ def scan_mz(data: bytes, maxrange: int = 1024):
             if p + 20 <= n and struct.unpack_from("<H", data, p)[0] in (0x014C, 0x8664):
                 return off
     return None
+
+
+def parse_pe(data: bytes, mz_off: int):
+    """Reference reader (struct offsets only) used to anchor the builder's field layout against real samples."""
+    e = struct.unpack_from("<i", data, mz_off + 0x3C)[0]
+    pe_off = mz_off + e
+    machine, nsec, stamp, _, _, optsize, _ = struct.unpack_from("<HHIIIHH", data, pe_off + 4)
+    arch = {0x014C: "x86", 0x8664: "x64"}.get(machine)
+    opt = pe_off + 24
+    dd = opt + (96 if arch == "x86" else 112)
+    exp_rva, _exp_size = struct.unpack_from("<II", data, dd)
+    size_of_headers = struct.unpack_from("<I", data, opt + 60)[0]
+    sec = opt + optsize
+    export = None
+    total = size_of_headers
+    for i in range(nsec):
+        name, vsize, va, rawsize, rawptr = struct.unpack_from("<8sIIII", data, sec + 40 * i)
+        total += rawsize
+        if export is None and va <= exp_rva < va + vsize:
+            export = struct.unpack_from("<I", data, mz_off + exp_rva - va + rawptr + 4)[0]
+    return dict(arch=arch, compile_stamp=stamp, export_stamp=export, magic_pe=data[pe_off : pe_off + 4].rstrip(b"\x00"), size=total, e_lfanew=e)
